@@ -6,7 +6,7 @@ def U(unit, obligations, tier="quick", timeout=600):
 
 
 FLOAT_IDEAL = "idealised-real float semantics (machine arithmetic treated as mathematical) where stated per unit"
-WF_GAME = "wf_game (infoset indices in range, weight vectors as long as child lists) as established by Game::from_root: assumed (C11 decides the rule checks per node and that compact::Builder hands out dense indices 0,1,2,.. in first-seen order; that the final tables are built in that order -- IndexMap::into_iter -- and the chance-infoset OptBuilder are not covered)"
+WF_GAME = "wf_game (infoset indices in range, weight vectors as long as child lists) as established by Game::from_root: assumed (C11 decides the rule checks per node and that compact::Builder and compact::OptBuilder hand out dense indices 0,1,2,.. in first-seen order; that the final tables are built in that order -- IndexMap::into_iter -- is not covered)"
 
 PROPS = {
     "C01": dict(
@@ -104,7 +104,7 @@ PROPS = {
                U("c08_chance_reach", ["C08.V.chance_reach.product_along_path (recurse_multi passes the same reaches as recurse_single)"]),
                U("c08_advance_order", ["C08.V.advance.order: MutexRegretInfoset::advance obeys the same contract as the single-threaded RegretInfoset::advance"])],
         
-        trusted_base=["assumed contracts on thread_threshold and rayon (prelude/workspace.rs)"],
+        trusted_base=["assumed contract on rayon par_drain / par_extend (prelude/workspace.rs); the call-site stub of thread_threshold there carries only the PRECONDITION (empty queue and work) of the contract proved for the real loops in c06_threshold_loop / c07_external_threshold_loop and promises nothing"],
         not_decided=["races between worker tasks, atomic add ordering, equality up to summation order",
                      "thread_threshold: termination and that the loop stops AT the target size (performance only); that the frontier it leaves is a cut of the traversal IS decided (C06.V.thread_threshold.frontier_is_a_cut)"],
     ),
@@ -130,7 +130,7 @@ PROPS = {
                U("c07_external_threshold_loop", ["C07.V.external_thread_threshold.frontier_is_a_cut (the whole frontier loop of the external-sampled parallel path: queue+work+reached terminals are a cut of the SAMPLED tree -- visited exactly once)", "C07.V.external_thread_threshold.draws_kept"]),
                U("c10_cached_infoset", ["C10.V.cached_infoset.cache_hit"]),
                U("c08_advance_order", ["C10.V.cached_infoset.advance_resets_draw"])],
-        trusted_base=["assumed contracts on thread_threshold and rayon (prelude/workspace.rs)"],
+        trusted_base=["assumed contract on rayon par_drain / par_extend (prelude/workspace.rs); the call-site stub of thread_threshold there carries only the PRECONDITION (empty queue and work) of the contract proved for the real loops in c06_threshold_loop / c07_external_threshold_loop and promises nothing"],
         not_decided=["schedules", "try_lock uniqueness on arbitrary trees"],
     ),
     "C08": dict(
@@ -236,11 +236,12 @@ PROPS = {
                                        "C11.V.init_recurse.single_action_same", "C11.V.init_recurse.single_action_recorded_once", "C11.V.init_recurse.actions_and_children_paired"]),
                U("c11_chance_normalise", ["C11.V.init_recurse.chance_probabilities_normalised"]),
                U("c11_compact", ["C11.V.compact.entry_index", "C11.V.compact.insert_returns_index", "C11.V.compact.get_returns_index", "C11.V.compact.dense_preserved", "C11.V.compact.new_dense"]),
+               U("c11_compact_opt", ["C11.V.compact_opt.entry_index (chance infosets: same dense indices)", "C11.V.compact_opt.anonymous_is_new (a chance node without an infoset label is always its own infoset)", "C11.V.compact_opt.fresh_key", "C11.V.compact_opt.new"]),
                U("c11_constructors", ["C11.V.constructors.chance_infoset", "C11.V.constructors.chance_node", "C11.V.constructors.player_builder", "C11.V.constructors.player_infoset", "C11.V.constructors.num_actions"])],
         kani_functions=[],
         trusted_base=["uninterpreted float semantics + IEEE classification facts (Kani harness ieee_classification)",
                       "assumed contracts on compact::{OccupiedEntry, VacantEntry} (IndexMap), std HashMap::entry (prophecy of the entry's use), slice comparison, HashSet::len of collected references, == of user label types being equality"],
-        not_decided=["composition over the tree (succeeds iff every node satisfies every rule)", "never panics", "from_root's conversion of the builders", "the chance-infoset OptBuilder"],
+        not_decided=["composition over the tree (succeeds iff every node satisfies every rule)", "never panics", "from_root's conversion of the builders (IndexMap::into_iter order)"],
     ),
     "C13": dict(
         level="proof",
